@@ -52,6 +52,6 @@ fn ob_c17_composite(s0: usize, s1: usize, l0: usize, l1: usize, has_left: bool) 
 //@ pre: none
 //@ post: must FAIL
 fn ob_c17_diagnostics_canary(a: u8, b: u8) {
-    let (s, _) = (a as usize, 1usize).union((b as usize, 1usize));
-    assert!(s == a as usize, "canary");
+    let _ = (a as usize, 1usize).union((b as usize, 1usize));
+    assert!(a != b, "canary");
 }
